@@ -334,6 +334,11 @@ impl fmt::Debug for Headers {
 pub struct ParseU64Error;
 
 pub fn parse_u64(src: &[u8]) -> Result<u64, ParseU64Error> {
+    if src.is_empty() {
+        // Not a number at all
+        return Err(ParseU64Error);
+    }
+
     if src.len() > 19 {
         // At danger for overflow...
         return Err(ParseU64Error);
